@@ -293,6 +293,12 @@ class Exc(object):
         for n in walk_no_nested(e):
             if isinstance(n, ast.Call):
                 out |= self.raises_call(n, ctx, caught)
+            elif isinstance(n, ast.Subscript) and isinstance(n.ctx, ast.Load) and isinstance(n.value, ast.Call) \
+                    and isinstance(n.value.func, ast.Attribute) and not isinstance(n.slice, ast.Slice) and (
+                        n.value.func.attr == 'splitlines' or (n.value.func.attr == 'split' and not n.value.args
+                                                              and not n.value.keywords)):
+                # the list these return is empty for empty (blank) text: indexing it fails
+                out.add('IndexError')
         return out
 
     # ----------------------------------------------------------- statements
